@@ -50,6 +50,17 @@ extern "C" {
  */
 int32_t jls_bit_shift_array_right(uint8_t bits, void * data, size_t size);
 
+/**
+ * @brief Copy a run of bits between two LSB-first packed bit arrays.
+ *
+ * @param dst The destination array.  Bits outside the copied run are preserved.
+ * @param dst_bit The bit offset into dst for the first bit.
+ * @param src The source array.
+ * @param src_bit The bit offset into src for the first bit.
+ * @param bit_count The number of bits to copy.
+ */
+void jls_bit_copy(uint8_t * dst, size_t dst_bit, const uint8_t * src, size_t src_bit, size_t bit_count);
+
 
 /** @} */
 
